@@ -43,13 +43,15 @@ check("C03", "runtime monitoring: post-condition and exception-path monitor on S
       "Held on the simulate() calls observed: every returned amplitude equals the reference, lossless herald-free rows "
       "are unit vectors, outputs=None yields the Fock basis once, and every documented kind of invalid argument raised.",
       "Trusted: own permanent and herald insertion in /verif/lwverif; the circuit's own U_full/heralds are taken as given "
-      "(C01/C02 decide those); tolerance 1e-9; <=7 photons incl. heralds.", "DESIGN.md 4 C03")
+      "(C01/C02 decide those); tolerance 1e-9; permanent-based reference up to 7 photons incl. heralds, above that (8-21 "
+      "photons bunched on 2-3 modes) an own polynomial-expansion reference, tolerance growing to 1e-5.", "DESIGN.md 4 C03")
 check("C04", "runtime monitoring: post-condition monitors on Backend.full_probability_distribution and the "
       "Sampler.probability_distribution getter against an own loss-summed Fock reference, plus a cross-backend "
       "comparison in the driver, over seeded random lossy/heralded circuits",
       "Held on the distributions observed: non-negative, no pattern with more photons than injected, equal to the "
       "loss-summed reference and normalised up to the documented 1e-9 per-state truncation, permanent == slos.",
-      "Trusted: own permanent; allowance 1e-9 x (number of full output patterns); <=5-6 photons, <=14 modes incl. loss.",
+      "Trusted: own permanent / polynomial expansion; allowance 1e-9 x (number of full output patterns); <=5-6 photons on <=14 "
+      "modes incl. loss, and 8-26 photons on 2-3 modes (slos alone above 14 photons).",
       "DESIGN.md 4 C04")
 
 check("C05", "runtime monitoring: results of Simulator/Sampler/Analyzer/QuickSampler recorded at the API boundary for the "
